@@ -51,7 +51,7 @@ def run_shard(mod, tier, seed, i, n, partial_out=None, work=None):
         n_ex = mod.N[tier]
         if isinstance(n_ex, (list, tuple)):
             n_ex = n_ex[0]
-        budget = getattr(mod, 'TIME_BUDGET', {}).get(tier)
+        budget = getattr(mod, 'TIME_BUDGET', {}).get(tier) or (2400 if tier == 'thorough' else None)   # a budget hit is recorded as inconclusive
         sb = 45 if tier == 'quick' else 240
         if hasattr(mod, 'strata'):
             allst = mod.strata(tier)
